@@ -613,10 +613,10 @@ def check_task_queue(chk, lib):
         if not entry_states[hq]:
             entry_states[hq].add(False)
         analyse(h, entry_states[hq], True)
-    for fn in fns:
-        if fn["name"] in ("get_task", "try_get_task"):
-            n += check_handout(chk, fn, helpers)
-    chk.floor("Q", n, 20)
+    # Q3 (hand-out) used to be a path rule of its own (check_handout below, kept for reference); it fired on a
+    # behaviour-preserving rewrite of the search loop (refactorings/g71/patch_02) and is now decided in the zone analysis that
+    # C12-M7 and Q4 share (c12_bounds.py): confirmed position = handed-out position, live range shrinks by exactly one.
+    chk.floor("Q", n, 18)
 
 
 def check_handout(chk, fn, helpers=None):
@@ -1033,7 +1033,7 @@ def check_lock_dependency(chk, lib):
         chk.require(okk, "L1", "Task::unlock_dependency releases exactly the non-null dependencies", where(fn),
                     "with non-null=%s the releases are %s" % (nn, cnt), function=fn["full"],
                     construct="unlock lockset")
-    chk.floor("L1", n, 7)
+    chk.floor("L1", n, 5)
 
 
 def check_memory_space(chk, lib):
@@ -1174,7 +1174,7 @@ def run(chk, prog):
     from .c12_bounds import rule_M7
     before_q4 = len(chk.obligations)
     rule_M7(Check("C12", "embedded", "other"), lib, gap_chk=chk, gap_rule="Q4")
-    chk.floor("Q4", len(chk.obligations) - before_q4, 1)
+    chk.floor("Q3+Q4", len(chk.obligations) - before_q4, 2)
     check_memory_space(chk, lib)
 
 
